@@ -995,7 +995,70 @@ def _fno_irfft_size():
     _FourierLayer.forward = forward
 
 
+def _cond_inplace_dict():
+    from torchphysics.problem.conditions.condition import Condition
+    from torchphysics.problem.samplers import StaticSampler
+    from torchphysics.utils import UserFunction
+
+    def setup(self, data_functions, sampler):
+        for fun in data_functions:
+            data_functions[fun] = UserFunction(data_functions[fun])
+        if isinstance(sampler, StaticSampler):
+            for fun in data_functions:
+                points = sampler.sample_points()
+                data_functions[fun] = UserFunction(data_functions[fun](points))
+        return data_functions
+    Condition._setup_data_functions = setup
+
+
+def _cond_sqerr_mean():
+    import torch
+    from torchphysics.problem.conditions.condition import SquaredError
+    SquaredError.forward = lambda self, x: torch.mean(torch.square(x), dim=1)
+
+
+def _cond_data_on_first_call_points():
+    from torchphysics.problem.conditions.condition import SingleModuleCondition
+    old = SingleModuleCondition.forward
+
+    def forward(self, device="cpu", iteration=None):
+        x = self.sampler.sample_points(device=device)
+        xc, x = x.track_coord_gradients()
+        if not hasattr(self, "_cached_data"):
+            self._cached_data = {f: self.data_functions[f](xc) for f in self.data_functions}
+        data = {f: v.flip(0) if v.dim() > 0 and len(v) > 1 else v for f, v in self._cached_data.items()}     # rows of the data reversed
+        y = self.module(x)
+        ul = self.error_fn(self.residual_fn({**y.coordinates, **xc, **self.parameter.coordinates, **data}))
+        return self.reduce_fn(ul)
+    SingleModuleCondition.forward = forward
+
+
+def _cond_periodic_shared_sides():
+    from torchphysics.problem.conditions.condition import PeriodicCondition
+    old = PeriodicCondition.__init__
+
+    def init(self, *a, **kw):
+        old(self, *a, **kw)
+        self.right_data_functions = self.left_data_functions          # one dictionary for both sides
+    PeriodicCondition.__init__ = init
+
+
+def _cond_model_positional():
+    from torchphysics.models.model import Model
+    from torchphysics.problem.spaces import Points
+
+    def fix(self, points):
+        if points.space != self.input_space:
+            if points.space.keys() != self.input_space.keys():
+                raise ValueError("space")
+            return Points(points.as_tensor, self.input_space)          # relabelled, not reordered
+        return points
+    Model._fix_points_order = fix
+
+
 REGISTRY = {
+    "cond_inplace_dict": _cond_inplace_dict, "cond_sqerr_mean": _cond_sqerr_mean, "cond_data_rows_reversed": _cond_data_on_first_call_points,
+    "cond_periodic_shared_sides": _cond_periodic_shared_sides, "cond_model_positional": _cond_model_positional,
     "fno_pad_front": _fno_pad_front, "fno_inplace_input": _fno_inplace, "fno_position_bias": _fno_position_bias,
     "fno_norm_one_side": _fno_irfft_size,
     "don_contract_reversed": _don_contract_wrong_axis, "don_grad_weight_first_copy": _don_grad_weight,
@@ -1032,6 +1095,8 @@ REGISTRY = {
     "dl_target_perm": _dl_target_perm, "dl_len_floor": _dl_len_floor, "dl_agg_global_mean": _dl_agg_sum,
 }
 BY_PROPERTY = {
+    "C04": ["cond_sqerr_mean", "cond_data_rows_reversed", "cond_periodic_shared_sides", "cond_model_positional"],
+    "C14": ["cond_inplace_dict", "cond_periodic_shared_sides"],
     "C20": ["fno_pad_front", "fno_inplace_input", "fno_position_bias", "fno_norm_one_side"],
     "C09": ["don_contract_reversed", "don_grad_weight_first_copy", "don_branch_cache_by_shape"],
     "C08": ["mdl_fcn_noreorder", "mdl_parallel_positional", "mdl_qres_batch_norm", "mdl_sequential_flip", "mdl_missing_var_zero"],
